@@ -94,7 +94,9 @@ pub fn judge_c12(cfg: &HybCfg, ops: &[HOp], trace: &HTrace) -> (Vec<Failure>, C1
 
         // the copy being replaced by an insert may leave memory either as "replaced" (not written) or as a capacity
         // eviction of the evict-until-it-fits loop (written under write-on-eviction): both are what actually happened
-        if let (HOp::Insert { .. } | HOp::WriterInsert { .. }, HRet::Inserted { key, accepted: true, .. }) = (op, &st.ret) {
+        // (a disk-only insert - OnDisk advice, storage writer - does not run that loop: the copy it displaces can only
+        // be "replaced", so nothing extra is allowed for it)
+        if let (HOp::Insert { .. }, HRet::Inserted { key, accepted: true, disk_only: false, .. }) = (op, &st.ret) {
             if let Some(r) = resident.get(key) {
                 if !woi && !closed && r.writable && (r.fresh || r.old) && !rejected(*key) && fits(r.version) {
                     allowed_extra.insert((*key, r.version));
@@ -385,7 +387,7 @@ pub fn c12_case_wrapping(max_len: usize) -> impl Strategy<Value = HybCase> {
     )
         .prop_map(|(mut cfg, ops, probation, blocks)| {
             cfg.hold_io = false;
-            cfg.write_on_insertion = false;
+            // both policies: under write-on-insertion a lookup that loads an Old entry from disk must not write it again
             cfg.probation_pct = probation;
             cfg.blocks = blocks;
             cfg.block_size = 16 * 1024;
